@@ -68,6 +68,9 @@ def fspec(draw, name, method=None):
         elif seen:
             d = "0"
         ps.append(dict(name="p%d" % i, default=d, anno=draw(st.sampled_from(ANNOS)), traced=draw(st.integers(0, 17))))
+        if ps[-1]["traced"] % 6 == 5:
+            # a name shaped like a privately mangled one (it is not: it does not start with two underscores)
+            ps[-1]["name"] = "_p%d__x" % i
     return dict(name=name, ps=ps, ret_anno=draw(st.sampled_from(ANNOS)), ret_traced=draw(st.integers(1, 17)),
                 kwonly=draw(st.booleans()), varargs=draw(st.booleans()), posonly=draw(st.sampled_from([False, False, True])), deco=draw(st.sampled_from([None, None, "deco", "deco2"])),
                 style=draw(st.sampled_from(["normal", "normal", "oneline", "multiline"])), nested=draw(st.booleans()),
